@@ -1,2 +1,349 @@
+//! C03: parser call graph, guard set, rank certificate — extracted from the program text.
+//!
+//! Nodes: every `fn` in src/parser/*.rs and src/dialect/*.rs (outside `#[cfg(test)]` modules),
+//! keyed by (owner, name) where owner is `Parser`, `trait Dialect` (default bodies),
+//! `<Type> as Dialect`, another impl type, or `free:<file stem>`.
+//! Edges: every method call / path reference inside a body (closures count for the enclosing fn):
+//!   * receiver `self` inside Parser            -> Parser::name
+//!   * receiver `self` inside a Dialect impl    -> that impl's `name`, else the trait default, plus
+//!                                                 every override (conservative)
+//!   * receiver `…dialect` (field or variable)  -> every impl of `name` and the default
+//!   * any other receiver                       -> Parser::name if Parser has such a fn
+//!                                                 (closure parameters `p`, `parser`), else the
+//!                                                 dialect impls if the trait has such a method
+//!   * paths `Parser::name`, `Self::name`, bare `name` of a free fn in the same file
+//! Guard set S: functions whose body starts with `let _guard = self.recursion_counter.try_decrease()?;`.
+//! Certificate: rank : node -> Nat with rank v < rank u for every edge u->v with v not in S,
+//! after removing the edges listed in /verif/c03_discharged.json.
+use crate::leanout::lean_str;
 use crate::*;
-pub fn run(_repo: &Path, _out: &Path) -> Result<(), String> { Ok(()) }
+use syn::visit::Visit;
+
+#[derive(Clone, Debug, PartialEq, Eq, PartialOrd, Ord)]
+struct Node {
+    owner: String,
+    name: String,
+}
+impl Node {
+    fn label(&self) -> String {
+        format!("{}::{}", self.owner, self.name)
+    }
+}
+
+struct FnInfo {
+    has_self: bool,
+    node: Node,
+    block: syn::Block,
+    in_dialect_impl: bool,
+    file: String,
+}
+
+fn is_cfg_test(attrs: &[syn::Attribute]) -> bool {
+    attrs.iter().any(|a| a.path().is_ident("cfg") && quote::quote!(#a).to_string().contains("test"))
+}
+
+fn type_name(t: &syn::Type) -> String {
+    match t {
+        syn::Type::Path(p) => p.path.segments.last().map(|s| s.ident.to_string()).unwrap_or_default(),
+        syn::Type::Reference(r) => type_name(&r.elem),
+        syn::Type::TraitObject(_) => "dyn".into(),
+        _ => quote::quote!(#t).to_string(),
+    }
+}
+
+fn collect(file: &syn::File, stem: &str, out: &mut Vec<FnInfo>) {
+    fn items(its: &[syn::Item], stem: &str, out: &mut Vec<FnInfo>) {
+        for it in its {
+            match it {
+                syn::Item::Fn(f) if !is_cfg_test(&f.attrs) => out.push(FnInfo {
+                    has_self: false,
+                    node: Node { owner: format!("free:{stem}"), name: f.sig.ident.to_string() },
+                    block: (*f.block).clone(),
+                    in_dialect_impl: false,
+                    file: stem.into(),
+                }),
+                syn::Item::Impl(im) if !is_cfg_test(&im.attrs) => {
+                    let ty = type_name(&im.self_ty);
+                    let is_d = im.trait_.as_ref().map(|t| t.1.segments.last().unwrap().ident == "Dialect").unwrap_or(false);
+                    let owner = if is_d { format!("{ty} as Dialect") } else if let Some(t) = &im.trait_ { format!("{ty} as {}", t.1.segments.last().unwrap().ident) } else { ty.clone() };
+                    for ii in &im.items {
+                        if let syn::ImplItem::Fn(f) = ii {
+                            if is_cfg_test(&f.attrs) { continue; }
+                            out.push(FnInfo { has_self: f.sig.receiver().is_some(), node: Node { owner: owner.clone(), name: f.sig.ident.to_string() }, block: f.block.clone(), in_dialect_impl: is_d, file: stem.into() });
+                        }
+                    }
+                }
+                syn::Item::Trait(t) if t.ident == "Dialect" => {
+                    for ti in &t.items {
+                        if let syn::TraitItem::Fn(f) = ti {
+                            let block = f.default.clone().unwrap_or(syn::parse_quote!({}));
+                            out.push(FnInfo { has_self: f.sig.receiver().is_some(), node: Node { owner: "trait Dialect".into(), name: f.sig.ident.to_string() }, block, in_dialect_impl: true, file: stem.into() });
+                        }
+                    }
+                }
+                syn::Item::Mod(m) if !is_cfg_test(&m.attrs) => {
+                    if let Some((_, its)) = &m.content {
+                        items(its, stem, out);
+                    }
+                }
+                _ => {}
+            }
+        }
+    }
+    items(&file.items, stem, out);
+}
+
+#[derive(Debug)]
+enum Recv { SelfV, Dialect, Struct(String), Other }
+
+struct Calls {
+    method: Vec<(Recv, String)>,
+    paths: Vec<(Option<String>, String)>,
+}
+
+fn recv_kind(e: &syn::Expr) -> Recv {
+    match e {
+        syn::Expr::Path(p) if p.path.is_ident("self") => Recv::SelfV,
+        syn::Expr::Path(p) if p.path.get_ident().map(|i| i.to_string().contains("dialect")).unwrap_or(false) => Recv::Dialect,
+        syn::Expr::Field(f) => match &f.member {
+            syn::Member::Named(n) if n == "dialect" => Recv::Dialect,
+            _ => Recv::Other,
+        },
+        syn::Expr::Struct(st) => Recv::Struct(st.path.segments.last().map(|x| x.ident.to_string()).unwrap_or_default()),
+        syn::Expr::Reference(r) => recv_kind(&r.expr),
+        syn::Expr::Paren(p) => recv_kind(&p.expr),
+        syn::Expr::Unary(u) => recv_kind(&u.expr),
+        _ => Recv::Other,
+    }
+}
+
+impl<'ast> Visit<'ast> for Calls {
+    fn visit_expr_method_call(&mut self, m: &'ast syn::ExprMethodCall) {
+        self.method.push((recv_kind(&m.receiver), m.method.to_string()));
+        syn::visit::visit_expr_method_call(self, m);
+    }
+    fn visit_expr_path(&mut self, p: &'ast syn::ExprPath) {
+        let segs: Vec<String> = p.path.segments.iter().map(|s| s.ident.to_string()).collect();
+        if segs.len() >= 2 {
+            self.paths.push((Some(segs[segs.len() - 2].clone()), segs[segs.len() - 1].clone()));
+        } else if segs.len() == 1 {
+            self.paths.push((None, segs[0].clone()));
+        }
+        syn::visit::visit_expr_path(self, p);
+    }
+    fn visit_macro(&mut self, m: &'ast syn::Macro) {
+        // calls inside macro arguments (format!, parser_err!, dialect_of! ...): parse as expr list when possible
+        if let Ok(args) = m.parse_body_with(syn::punctuated::Punctuated::<syn::Expr, syn::Token![,]>::parse_terminated) {
+            for a in args.iter() {
+                self.visit_expr(a);
+            }
+        }
+    }
+}
+
+fn starts_with_guard(b: &syn::Block) -> bool {
+    if let Some(syn::Stmt::Local(l)) = b.stmts.first() {
+        let s = quote::quote!(#l).to_string().replace(' ', "");
+        return s.contains("recursion_counter.try_decrease()?");
+    }
+    false
+}
+
+pub fn run(repo: &Path, out: &Path) -> Result<(), String> {
+    let mut fns: Vec<FnInfo> = vec![];
+    let mut files = rs_files(&repo.join("src/parser"));
+    files.extend(rs_files(&repo.join("src/dialect")));
+    for f in &files {
+        let src = fs::read_to_string(f).map_err(|e| e.to_string())?;
+        let file = syn::parse_file(&src).map_err(|e| format!("{f:?}: {e}"))?;
+        let stem = f.strip_prefix(repo.join("src")).unwrap().to_string_lossy().replace(".rs", "").replace('/', "_");
+        collect(&file, &stem, &mut fns);
+    }
+    fns.sort_by(|a, b| a.node.cmp(&b.node));
+    fns.dedup_by(|a, b| a.node == b.node); // cfg(std)/cfg(not(std)) duplicates
+    let idx: Map<Node, usize> = fns.iter().enumerate().map(|(i, f)| (f.node.clone(), i)).collect();
+    let parser_fns: Set<String> = fns.iter().filter(|f| f.node.owner == "Parser" && f.has_self).map(|f| f.node.name.clone()).collect();
+    let mut dialect_impls: Map<String, Vec<usize>> = Map::new(); // method name -> all impl nodes incl. default
+    for (i, f) in fns.iter().enumerate() {
+        if f.in_dialect_impl {
+            dialect_impls.entry(f.node.name.clone()).or_default().push(i);
+        }
+    }
+    let guarded: Vec<bool> = fns.iter().map(|f| starts_with_guard(&f.block)).collect();
+
+    let mut edges: Set<(usize, usize)> = Set::new();
+    for (u, f) in fns.iter().enumerate() {
+        let mut c = Calls { method: vec![], paths: vec![] };
+        c.visit_block(&f.block);
+        for (rk, name) in &c.method {
+            match rk {
+                Recv::SelfV if f.node.owner == "Parser" => {
+                    if let Some(&v) = idx.get(&Node { owner: "Parser".into(), name: name.clone() }) { edges.insert((u, v)); }
+                }
+                Recv::SelfV if f.in_dialect_impl => {
+                    if let Some(vs) = dialect_impls.get(name) { for &v in vs { edges.insert((u, v)); } }
+                }
+                Recv::SelfV => {
+                    if let Some(&v) = idx.get(&Node { owner: f.node.owner.clone(), name: name.clone() }) { edges.insert((u, v)); }
+                }
+                Recv::Dialect => {
+                    if let Some(vs) = dialect_impls.get(name) { for &v in vs { edges.insert((u, v)); } }
+                }
+                Recv::Struct(ty) => {
+                    // `PostgreSqlDialect {}.name(..)`: that impl's method, else the trait default
+                    if let Some(&v) = idx.get(&Node { owner: format!("{ty} as Dialect"), name: name.clone() }) { edges.insert((u, v)); }
+                    else if let Some(&v) = idx.get(&Node { owner: "trait Dialect".into(), name: name.clone() }) { edges.insert((u, v)); }
+                }
+                Recv::Other => {
+                    if parser_fns.contains(name) {
+                        edges.insert((u, idx[&Node { owner: "Parser".into(), name: name.clone() }]));
+                    } else if let Some(vs) = dialect_impls.get(name) {
+                        // only methods that take the parser (can recurse): conservative = all
+                        for &v in vs { edges.insert((u, v)); }
+                    }
+                }
+            }
+        }
+        for (q, name) in &c.paths {
+            match q.as_deref() {
+                Some("Parser") | Some("Self") if f.node.owner == "Parser" || q.as_deref() == Some("Parser") => {
+                    if let Some(&v) = idx.get(&Node { owner: "Parser".into(), name: name.clone() }) { edges.insert((u, v)); }
+                }
+                Some("Self") => {
+                    if let Some(&v) = idx.get(&Node { owner: f.node.owner.clone(), name: name.clone() }) { edges.insert((u, v)); }
+                }
+                None => {
+                    if let Some(&v) = idx.get(&Node { owner: format!("free:{}", f.file), name: name.clone() }) { edges.insert((u, v)); }
+                }
+                _ => {}
+            }
+        }
+    }
+
+    // discharged edges (committed file): [{"from": "Parser::a", "to": "Parser::b", "kind": "finding"|"lemma", "ref": "..."}]
+    let mut discharged: Vec<(usize, usize, String, String)> = vec![];
+    let mut unmatched_discharges = vec![];
+    if let Ok(t) = fs::read_to_string("/verif/c03_discharged.json") {
+        let j: serde_json::Value = serde_json::from_str(&t).map_err(|e| e.to_string())?;
+        for e in j["edges"].as_array().cloned().unwrap_or_default() {
+            let (a, b) = (e["from"].as_str().unwrap_or(""), e["to"].as_str().unwrap_or(""));
+            let fa = fns.iter().position(|f| f.node.label() == a);
+            let fb = fns.iter().position(|f| f.node.label() == b);
+            match (fa, fb) {
+                (Some(x), Some(y)) if edges.contains(&(x, y)) => discharged.push((x, y, e["kind"].as_str().unwrap_or("").into(), e["ref"].as_str().unwrap_or("").into())),
+                _ => unmatched_discharges.push(format!("{a}->{b}")),
+            }
+        }
+    }
+    let dis: Set<(usize, usize)> = discharged.iter().map(|d| (d.0, d.1)).collect();
+
+    // unguarded sub-graph: edges into non-guarded targets, minus discharged
+    let n = fns.len();
+    let mut adj: Vec<Vec<usize>> = vec![vec![]; n];
+    for &(u, v) in &edges {
+        if !guarded[v] && !dis.contains(&(u, v)) {
+            adj[u].push(v);
+        }
+    }
+    // Tarjan SCC (iterative)
+    let sccs = tarjan(&adj);
+    let mut cyc: Vec<Vec<usize>> = sccs.iter().filter(|c| c.len() > 1 || adj[c[0]].contains(&c[0])).cloned().collect();
+    cyc.sort();
+    // rank = longest unguarded path below (0 for nodes in cycles; certificate then fails in Lean)
+    let mut rank = vec![usize::MAX; n];
+    fn depth(u: usize, adj: &Vec<Vec<usize>>, rank: &mut Vec<usize>, on: &mut Vec<bool>) -> usize {
+        if rank[u] != usize::MAX { return rank[u]; }
+        if on[u] { return 0; }
+        on[u] = true;
+        let mut r = 0;
+        for &v in &adj[u] {
+            r = r.max(1 + depth(v, adj, rank, on));
+        }
+        on[u] = false;
+        rank[u] = r;
+        r
+    }
+    let mut on = vec![false; n];
+    for u in 0..n {
+        // run on a big stack? the graph is ~500 nodes, recursion depth is fine
+        depth(u, &adj, &mut rank, &mut on);
+    }
+
+    let mut o = String::new();
+    o.push_str("/- GENERATED by `translator callgraph` from src/parser/*.rs and src/dialect/*.rs. Do not edit. -/\nimport SqlVerif.Model.Graph\nnamespace SqlVerif.Gen.CallGraph\n\n");
+    o.push_str(&format!("def nNodes : Nat := {n}\n"));
+    o.push_str(&format!("def nodeNames : List String := [{}]\n", fns.iter().map(|f| lean_str(&f.node.label())).collect::<Vec<_>>().join(", ")));
+    o.push_str(&format!("/-- functions whose first statement takes a depth guard -/\ndef guarded : List Bool := [{}]\n", guarded.iter().map(|b| b.to_string()).collect::<Vec<_>>().join(",")));
+    let all_edges: Vec<String> = edges.iter().filter(|e| !dis.contains(e)).map(|(u, v)| format!("({u},{v})")).collect();
+    o.push_str(&format!("/-- all call edges (minus the discharged ones) -/\ndef edges : List (Nat × Nat) := [{}]\n", all_edges.join(",")));
+    o.push_str(&format!("/-- rank certificate (untrusted; checked by `decide`) -/\ndef rank : List Nat := [{}]\n", rank.iter().map(|r| r.to_string()).collect::<Vec<_>>().join(",")));
+    fn bt(keys: &[(usize, usize)]) -> String {
+        if keys.is_empty() { return ".leaf".into(); }
+        let m = keys.len() / 2;
+        format!("(.node {} {} {} {})", bt(&keys[..m]), keys[m].0, keys[m].1, bt(&keys[m + 1..]))
+    }
+    let rk: Vec<(usize, usize)> = rank.iter().enumerate().map(|(i, r)| (i, *r)).collect();
+    let gk: Vec<(usize, usize)> = guarded.iter().enumerate().map(|(i, g)| (i, *g as usize)).collect();
+    o.push_str(&format!("/-- `rank` as a balanced search tree (node id -> rank) -/\ndef rankTree : SqlVerif.Graph.BT := {}\n", bt(&rk)));
+    o.push_str(&format!("/-- `guarded` as a balanced search tree (node id -> 0/1) -/\ndef guardedTree : SqlVerif.Graph.BT := {}\n", bt(&gk)));
+    o.push_str(&format!("def maxRank : Nat := {}\n", rank.iter().max().copied().unwrap_or(0)));
+    o.push_str(&format!("def dischargedEdges : List (Nat × Nat) := [{}]\n", discharged.iter().map(|d| format!("({},{})", d.0, d.1)).collect::<Vec<_>>().join(",")));
+    o.push_str("\nend SqlVerif.Gen.CallGraph\n");
+    write_if_changed(&out.join("lean/CallGraph.lean"), &o);
+
+    let j = serde_json::json!({
+        "nodes": fns.iter().map(|f| f.node.label()).collect::<Vec<_>>(),
+        "guarded": fns.iter().zip(guarded.iter()).filter(|(_, g)| **g).map(|(f, _)| f.node.label()).collect::<Vec<_>>(),
+        "n_edges": edges.len(),
+        "unguarded_cycles": cyc.iter().map(|c| c.iter().map(|&i| fns[i].node.label()).collect::<Vec<_>>()).collect::<Vec<_>>(),
+        "discharged": discharged.iter().map(|d| serde_json::json!({"from": fns[d.0].node.label(), "to": fns[d.1].node.label(), "kind": d.2, "ref": d.3})).collect::<Vec<_>>(),
+        "unmatched_discharges": unmatched_discharges,
+        "edges": edges.iter().map(|(u, v)| [fns[*u].node.label(), fns[*v].node.label()]).collect::<Vec<_>>(),
+    });
+    write_if_changed(&out.join("callgraph.json"), &serde_json::to_string(&j).unwrap());
+    let cyc_names: Vec<Vec<String>> = cyc.iter().map(|c| c.iter().map(|&i| fns[i].node.label()).collect()).collect();
+    let obl = serde_json::json!({"C03": {
+        "callgraph.no-unguarded-cycle": {"ok": cyc.is_empty(), "note": format!("{} nodes, {} edges, {} guarded; unguarded cycles: {:?}", n, edges.len(), guarded.iter().filter(|g| **g).count(), cyc_names)},
+        "callgraph.discharged-edges-exist": {"ok": unmatched_discharges.is_empty(), "note": format!("c03_discharged.json entries that match no extracted edge: {:?}", unmatched_discharges)},
+        "callgraph.guard-set-nonempty": {"ok": guarded.iter().filter(|g| **g).count() >= 3, "note": "parse_statement, parse_subexpr, parse_query at least"},
+    }});
+    write_if_changed(&out.join("obl_callgraph.json"), &serde_json::to_string_pretty(&obl).unwrap());
+    Ok(())
+}
+
+fn tarjan(adj: &Vec<Vec<usize>>) -> Vec<Vec<usize>> {
+    let n = adj.len();
+    let mut index = vec![usize::MAX; n];
+    let mut low = vec![0; n];
+    let mut onst = vec![false; n];
+    let mut st = vec![];
+    let mut out = vec![];
+    let mut counter = 0;
+    for s in 0..n {
+        if index[s] != usize::MAX { continue; }
+        let mut call: Vec<(usize, usize)> = vec![(s, 0)];
+        index[s] = counter; low[s] = counter; counter += 1; st.push(s); onst[s] = true;
+        while let Some(&mut (u, ref mut i)) = call.last_mut() {
+            if *i < adj[u].len() {
+                let v = adj[u][*i];
+                *i += 1;
+                if index[v] == usize::MAX {
+                    index[v] = counter; low[v] = counter; counter += 1; st.push(v); onst[v] = true;
+                    call.push((v, 0));
+                } else if onst[v] {
+                    low[u] = low[u].min(index[v]);
+                }
+            } else {
+                call.pop();
+                if let Some(&(p, _)) = call.last() { low[p] = low[p].min(low[u]); }
+                if low[u] == index[u] {
+                    let mut c = vec![];
+                    loop { let w = st.pop().unwrap(); onst[w] = false; c.push(w); if w == u { break; } }
+                    c.sort();
+                    out.push(c);
+                }
+            }
+        }
+    }
+    out
+}
